@@ -284,3 +284,26 @@ pub proof fn lemma_push_no_dup<T>(s: Seq<T>, x: T)
         else { assert(s.contains(s[j])); }
     }
 }
+/// removing the (only) occurrence of x from a duplicate-free sequence is set removal
+pub proof fn lemma_remove_no_dup<T>(s: Seq<T>, x: T)
+    requires s.no_duplicates(), s.contains(x),
+    ensures ({
+        let s1 = s.remove(last_idx(s, x));
+        &&& s1.no_duplicates() && !s1.contains(x) && s1.len() == s.len() - 1
+        &&& forall|y: T| y != x ==> (s1.contains(y) <==> s.contains(y))
+    }),
+{
+    lemma_last_idx_none(s, x);
+    let p = last_idx(s, x);
+    let s1 = s.remove(p);
+    assert forall|k: int| 0 <= k < s1.len() implies #[trigger] s1[k] == s[if k >= p { k + 1 } else { k }] by {}
+    assert forall|i: int, j: int| 0 <= i < s1.len() && 0 <= j < s1.len() && i != j implies s1[i] != s1[j] by {
+        let i0 = if i >= p { i + 1 } else { i }; let j0 = if j >= p { j + 1 } else { j };
+        assert(s1[i] == s[i0] && s1[j] == s[j0]);
+    }
+    if s1.contains(x) { let k = choose|k: int| 0 <= k < s1.len() && s1[k] == x; let k0 = if k >= p { k + 1 } else { k }; assert(s1[k] == s[k0]); assert(s[k0] == s[p]); }
+    assert forall|y: T| y != x implies (s1.contains(y) <==> s.contains(y)) by {
+        if s1.contains(y) { let k = choose|k: int| 0 <= k < s1.len() && s1[k] == y; assert(s1[k] == s[if k >= p { k + 1 } else { k }]); }
+        if s.contains(y) { let k = choose|k: int| 0 <= k < s.len() && s[k] == y; assert(k != p); if k < p { assert(s1[k] == y); } else { assert(s1[k - 1] == y); } }
+    }
+}
